@@ -36,15 +36,21 @@ class BasePickerModel(ABC):
         if image.dtype != np.float32:
             image = image.astype(np.float32)
         params, depth = self.get_params_and_depth(scale)
-        # if depth is too large
         if isinstance(depth, (int, np.integer)):
             depth = (depth, depth, depth)
+        # the overlap cannot be larger than the image. NOTE: the depth must be a tuple,
+        # dask interprets a list as "one depth for each input array".
+        depth = np.minimum(np.asarray(depth), image.shape).astype(np.asarray(depth).dtype)
+        _depth = tuple(int(d) for d in depth)
+        padded = tuple(_is_padded(boundary, i) for i in range(image.ndim))
         task: da.Array = image.map_overlap(
             self._pick_in_chunk_wrapped,
             **params,
             **kwargs,
+            _depth=_depth,
+            _padded=padded,
             # dask parameters
-            depth=[min(s, d) for s, d in zip(image.shape, depth)],
+            depth=_depth,
             trim=False,
             boundary=boundary,
             dtype=object,
@@ -59,12 +65,27 @@ class BasePickerModel(ABC):
         self,
         image: NDArray[np.float32],
         block_info: dict,
+        _depth: tuple[int, ...] = (0, 0, 0),
+        _padded: tuple[bool, ...] = (True, True, True),
         **kwargs,
     ) -> NDArray[np.object_]:
         pos, quats, features = self.pick_in_chunk(image, **kwargs)
         locs: list[tuple[int, int]] = block_info[None]["array-location"]
-        for i, (start, _) in enumerate(locs):
-            pos[:, i] += start
+        # `image` is the chunk [start, stop) extended by the overlap. Picks found in the
+        # overlap belong to the neighboring chunk (or to the padded boundary) and have to
+        # be discarded here, otherwise they are reported more than once.
+        keep = np.ones(pos.shape[0], dtype=np.bool_)
+        for i, (start, stop) in enumerate(locs):
+            left = _depth[i] if (_padded[i] or start > 0) else 0
+            local = pos[:, i] - left
+            keep &= (local >= -0.5) & (local < (stop - start) - 0.5)
+            pos[:, i] = local + (start + _depth[i])
+        pos = pos[keep]
+        quats = quats[keep]
+        if isinstance(features, dict):
+            features = {k: np.asarray(v)[keep] for k, v in features.items()}
+        elif features is not None:
+            features = features[keep]
 
         return np.array([[[MoleculesBox(pos, quats, features)]]], dtype=object)
 
@@ -79,6 +100,15 @@ class BasePickerModel(ABC):
         self, scale: nm
     ) -> tuple[dict[str, Any], int | Sequence[SupportsIndex]]:
         ...
+
+
+def _is_padded(boundary, axis: int) -> bool:
+    """True if dask pads the array edge along the axis (False for boundary "none")."""
+    if isinstance(boundary, dict):
+        boundary = boundary.get(axis, "none")
+    elif isinstance(boundary, (tuple, list)):
+        boundary = boundary[axis]
+    return boundary is not None and boundary != "none"
 
 
 class BaseTemplateMatcher(BasePickerModel):
